@@ -147,6 +147,15 @@ def concretize(model, nondets, literals):
             else:
                 core = strs[c].strip(" ")
                 strs[c] = strs[c].replace(core, core + piece + "z", 1) if core else strs[c] + piece + "z"
+    # replaceall(x, old, new) = y with y != x: x must contain `old`
+    for name, args, v in ufs:
+        if name == "replaceall" and len(args) == 3:
+            try:
+                a, o, b = int(args[0]), int(args[1]), int(v)
+            except ValueError:
+                continue
+            if a != b and a in strs and a not in code2lit and a not in forced and o in code2lit and code2lit[o] not in strs[a]:
+                strs[a] = strs[a] + code2lit[o] + "z"
     # path facts: isabs(x) => leading "/"; cleanpath(x) = y with y != x => x := "./" + y (an
     # unclean spelling of the clean path y)
     for name, args, v in ufs:
